@@ -539,7 +539,7 @@ func init() {
 }
 
 func init() {
-	register(&Rule{ID: "U16", Min: 6, Text: "text lengths are UTF-16 code units everywhere in the model: in pkg/document (crdt, operations, json) and api/converter a string is converted to []rune only to feed utf16.Encode (never counted as runes, utf8.RuneCount* is not used), and the byte length len(s) of a string that is text content (a field or accessor named value/content/Value/Content of a text, tree-text or span type) is never used as a length or offset — offsets computed in two different units agree on ASCII and silently disagree on everything else",
+	register(&Rule{ID: "U16", Min: 6, Text: "text lengths are UTF-16 code units everywhere in the model: in pkg/document (crdt, operations, json) and api/converter a string is converted to []rune only to feed utf16.Encode (never counted as runes, utf8.RuneCount* is not used; the len of a []rune, also one that came out of utf16.Decode, is only compared with 0), and the byte length len(s) of a string that is text content (a field or accessor named value/content/Value/Content of a text, tree-text or span type) is never used as a length or offset — offsets computed in two different units agree on ASCII and silently disagree on everything else",
 		Run: func(x *Ctx) {
 			pkgs := []string{crdtPkg, opsPkg, "pkg/document/json", convPkg, docPkg}
 			nConv, nLen := 0, 0
@@ -588,6 +588,35 @@ func init() {
 								continue
 							}
 							a := t.Call.Args[0]
+							// len of a []rune — wherever the runes come from (a conversion, utf16.Decode) — is a count of
+							// code points: fine as an emptiness test, never as a length or offset
+							if sl, isSl := a.Type().Underlying().(*types.Slice); isSl {
+								if eb, isB := sl.Elem().Underlying().(*types.Basic); isB && eb.Kind() == types.Int32 {
+									onlyEmpty := true
+									for _, r := range *t.Referrers() {
+										if _, dbg := r.(*ssa.DebugRef); dbg {
+											continue
+										}
+										bo, isBO := r.(*ssa.BinOp)
+										if !isBO {
+											onlyEmpty = false
+											continue
+										}
+										z, isZ := prog.IntConst(bo.Y)
+										if z0, isZ0 := prog.IntConst(bo.X); isZ0 {
+											z, isZ = z0, true
+										}
+										if !(isZ && z == 0 && (bo.Op == token.EQL || bo.Op == token.NEQ || bo.Op == token.GTR || bo.Op == token.LSS)) {
+											onlyEmpty = false
+										}
+									}
+									nLen++
+									cnt[prog.FnName(fn)+"/rl"]++
+									x.check(onlyEmpty, fmt.Sprintf("func=%s rune-slice-length#%d only-an-emptiness-test", prog.FnName(fn), cnt[prog.FnName(fn)+"/rl"]), x.pos(t),
+										"the number of runes is only compared with 0", "the number of runes of a piece of text is used as a length: lengths and offsets of the text model are UTF-16 units — after splitting a tree text node behind a character outside the BMP the left piece is shorter than its content, and the next edit there fails with 'split offset out of range'")
+								}
+								continue
+							}
 							sb, isStr := a.Type().Underlying().(*types.Basic)
 							if !isStr || sb.Info()&types.IsString == 0 {
 								continue
